@@ -265,6 +265,9 @@ def _exh_worker(args):
 
 def write_evidence(ident, ev):
     d = os.path.join(VERIF, 'evidence')
+    if REPO != '/repo' or os.environ.get('VERIF_CASES') or os.environ.get('VERIF_TIME'):
+        # sensitivity runs against a scratch copy, or runs with an overridden budget, never touch the real evidence
+        d = os.path.join(VERIF, '.work', 'evidence_scratch')
     os.makedirs(d, exist_ok=True)
     tmp = os.path.join(d, '%s.json.tmp' % ident)
     with open(tmp, 'w') as f:
